@@ -1,0 +1,17 @@
+//go:build verif
+
+package align
+
+// Tables of the align package read by the model-parameter estimation of distance/dna (property C08, contracts in
+// distance/dna/zz_contracts_c08c_verif.go). Declared here because a `table` names a package-level variable of the
+// package of the contract file. Comments only.
+
+//@ table iupacToInt C08 C07
+//@ table iupacCodeByte C08 C07
+
+// c is a character of the IUPAC nucleotide table (after case folding); its code is ntcode(c) (zz_contracts_verif.go)
+//@ pure func c8c_iupac(c int) bool = has(iupacToInt, up8(c))
+
+// the set of bases an IUPAC code denotes, as listed by iupacCodeByte: their number, the j-th one
+//@ pure func c8c_nposs(c int) int = len(iupacCodeByte[c])
+//@ pure func c8c_poss(c int, j int) int = iupacCodeByte[c][j]
